@@ -122,6 +122,9 @@ def run(ctx, mine):
     for cst, inv in runs:
         r = tlc.run_tlc("Bottleneck", workers=16, constants=cst, invariants=inv, heap="8g", timeout=7200)
         ctx.model("Bottleneck %s %s" % (cst, inv), r, constants=cst)
+    if mine == "C01":
+        ctx.liveness("Bottleneck", dict(B=3, MaxS=2, MaxT=2, WithInf=True, TrackMatching=False) if quick else dict(B=3, MaxS=3, MaxT=3, WithInf=False, TrackMatching=False),
+                     ["Termination", "SearchShrinks", "BestNeverWorsens"])
     # ---- R: the diagram set TLC's Init ranges over, dumped by the spec
     dump = os.path.join(_mktempdir(prefix="bottdump_"), "dump.json")
     r = tlc.run_tlc("Bottleneck", workers=1, env={"DUMP_FILE": dump}, init="DumpInit", nxt="DumpNext",
